@@ -198,33 +198,43 @@ def _lock_of(stmt):
     return None
 
 
-def _flatten(stmts, held=()):
+class _Held(tuple):
+    """the enclosing `with <name>:` blocks of a statement; `.irregular` is set when the statement sits in a
+    nested loop or a conditional, i.e. is not executed exactly once per iteration of the parallel loop"""
+    irregular = False
+
+
+def _flatten(stmts, held=(), irregular=False):
     """simple statements of a block with the `with <name>:` blocks that enclose them;
     compound statements are flattened, their header expressions become pseudo statements"""
+    def mk(h, irr):
+        h = _Held(h)
+        h.irregular = irr
+        return h
     for s in stmts:
         lk = _lock_of(s)
         if lk is not None:
-            yield from _flatten(s.body, held + (lk,))
+            yield from _flatten(s.body, tuple(held) + (lk,), irregular)
         elif isinstance(s, ast.With):
             for it in s.items:
-                yield ast.Expr(it.context_expr), held
-            yield from _flatten(s.body, held)
+                yield ast.Expr(it.context_expr), mk(held, irregular)
+            yield from _flatten(s.body, held, irregular)
         elif isinstance(s, ast.For):
-            yield ast.Expr(s.iter), held
-            yield from _flatten(s.body, held)
-            yield from _flatten(s.orelse, held)
+            yield ast.Expr(s.iter), mk(held, irregular)
+            yield from _flatten(s.body, held, True)
+            yield from _flatten(s.orelse, held, True)
         elif isinstance(s, ast.While):
-            yield ast.Expr(s.test), held
-            yield from _flatten(s.body, held)
-            yield from _flatten(s.orelse, held)
+            yield ast.Expr(s.test), mk(held, True)
+            yield from _flatten(s.body, held, True)
+            yield from _flatten(s.orelse, held, True)
         elif isinstance(s, ast.If):
-            yield ast.Expr(s.test), held
-            yield from _flatten(s.body, held)
-            yield from _flatten(s.orelse, held)
+            yield ast.Expr(s.test), mk(held, irregular)
+            yield from _flatten(s.body, held, True)
+            yield from _flatten(s.orelse, held, True)
         elif isinstance(s, ast.Try):
-            yield from _flatten(s.body + [x for h in s.handlers for x in h.body] + s.orelse + s.finalbody, held)
+            yield from _flatten(s.body + [x for h in s.handlers for x in h.body] + s.orelse + s.finalbody, held, True)
         else:
-            yield s, held
+            yield s, mk(held, irregular)
 
 
 def _branches(script):
@@ -336,12 +346,13 @@ def _analyse_loop(bname, loop, kind, after):
             if k in ('shared', 'private') and base not in inner_bound:
                 refs.add(base)
         slots = _slot_writes(s, loop.index)
+        irr = bool(getattr(held, 'irregular', False))
         for name in sorted(mut):
-            steps.append(dict(op='slot' if name in slots else 'rmw', arr=arr_index(name), locks=[locks.index(h) + 1 for h in held_locks]))
+            steps.append(dict(op='slot' if name in slots else 'rmw', arr=arr_index(name), locks=[locks.index(h) + 1 for h in held_locks], irregular=irr))
         for name in sorted(refs - mut):
-            steps.append(dict(op='read', arr=arr_index(name), locks=[locks.index(h) + 1 for h in held_locks]))
+            steps.append(dict(op='read', arr=arr_index(name), locks=[locks.index(h) + 1 for h in held_locks], irregular=irr))
         for name in sorted(_bound(s) & set(leaks)):
-            steps.append(dict(op='rmw', arr=arr_index(name), locks=[locks.index(h) + 1 for h in held_locks]))
+            steps.append(dict(op='rmw', arr=arr_index(name), locks=[locks.index(h) + 1 for h in held_locks], irregular=irr))
         if mut or (refs - mut):
             detail.append(dict(stmt=ast.unparse(s)[:120], writes=sorted(mut), reads=sorted(refs - mut), held=list(held)))
     # only arrays that are written in the loop matter for mutual exclusion; reads of arrays that are
@@ -362,7 +373,8 @@ def _analyse_loop(bname, loop, kind, after):
     lremap = {l: i + 1 for i, l in enumerate(usedlocks)}
     for st in steps:
         st['locks'] = [lremap[l] for l in st['locks']]
-    return dict(branch=bname, loop=loop.name, alllocks=locks, arrays=names, shared=shared, nlocks=len(usedlocks), scratch=sorted(arrays[a - 1] for a in scratch),
+    irregular = any(st.pop('irregular') and st['locks'] for st in steps)
+    return dict(branch=bname, loop=loop.name, irregular=irregular, alllocks=locks, arrays=names, shared=shared, nlocks=len(usedlocks), scratch=sorted(arrays[a - 1] for a in scratch),
                 locknames=[locks[l - 1] for l in usedlocks], body=steps, detail=detail, leaks=leaks)
 
 
@@ -377,7 +389,8 @@ def signature(rec):
 
 
 def config(rec, cid, np_=2, niter=2):
-    return dict(id=cid, np=np_, niter=niter, shared=list(rec['shared']), nlocks=rec['nlocks'], body=[dict(st) for st in rec['body']])
+    return dict(id=cid, np=np_, niter=niter, shared=list(rec['shared']), nlocks=rec['nlocks'],
+                body=[dict(op=st['op'], arr=st['arr'], locks=list(st['locks'])) for st in rec['body']])
 
 
 _CLASS = re.compile(r'# (\w+) e\d+')
